@@ -144,7 +144,8 @@ IdleChecks(ln, e) ==
 \* expected readiness of both descriptors from the model state after the step
 ReadyChecks(ln, neweps) ==
   LET refusedNow == ln.op = "s" /\ ln.ret = -1 /\ ln.err \in {EAGAIN, EMSGSIZE, EINVAL}
-      rtag(i) == IF refusedNow /\ i = ln.e THEN "C03.trace" ELSE "MM"
+      \* (on the TLS transports a refused send legitimately changes what OpenSSL waits for, hence the registration)
+      rtag(i) == IF refusedNow /\ i = ln.e /\ neweps[i].l1m # "logged" THEN "C03.trace" ELSE "MM"
       one(i) ==
         IF ln.rd[i] = -1 \/ ln.kr[i] = -1 \/ (neweps[i].l1m = "logged" /\ ~neweps[i].rk) THEN <<>>
         ELSE LET exp == Readable(neweps[i], ln.kr[i])
@@ -200,12 +201,13 @@ SslNext(ln, ep) ==
        ELSE [ep EXCEPT !.sc = 0, !.sw = 0]
 Upd(ln, ep) ==
   IF ep.l1m = "logged"
-  THEN (IF ln.ssl[4] = -1 THEN [ep EXCEPT !.rk = FALSE]
-        ELSE UpdateTls([SslNext(ln, ep) EXCEPT !.rk = TRUE], ln.ssl[4] = 1))
+  THEN LET e1 == [SslNext(ln, ep) EXCEPT !.ck = @ \/ ln.op = "a", !.sk = @ \/ ln.ssl[1] > 0] IN
+       IF ln.ssl[4] = -1 \/ ~e1.ck \/ ~e1.sk THEN [e1 EXCEPT !.rk = FALSE]
+       ELSE UpdateTls([e1 EXCEPT !.rk = TRUE], ln.ssl[4] = 1)
   ELSE Update(ep)
 
 \* after a blocking-mode call the SSL state is not logged: readiness of a TLS endpoint is not predicted until its next call
-UpdB(ep) == IF ep.l1m = "logged" THEN [ep EXCEPT !.rk = FALSE] ELSE Update(ep)
+UpdB(ep) == IF ep.l1m = "logged" THEN [ep EXCEPT !.rk = FALSE, !.ck = FALSE, !.sk = FALSE] ELSE Update(ep)
 
 \* apply a model result; cs = checks of the model part for this step
 Apply(ln, e, newep, newframes, newnrcv, hcs, mcs) ==
